@@ -41,7 +41,8 @@ def roundtrip_cases(draw, nums=("frac",)):
         z = draw(st.sampled_from(pool))
         if sum(1 for u in U if u == z) + nodes.count(z) < p + 1:
             nodes.append(z)
-    return {"curve": c, "nodes": nodes, "tolerance": draw(st.sampled_from(["default", "default", "none", F(1, 10 ** 12)]))}
+    tols = ["default", "default", "none", F(1, 10 ** 12)] if nums == ("frac",) else ["default", "default", "none"]
+    return {"curve": c, "nodes": nodes, "tolerance": draw(st.sampled_from(tols))}
 
 
 def call_remove(curve, nodes, tol):
